@@ -53,6 +53,30 @@ NA = {
  "C19": "engine AUG not built yet in this commit",
  "C20": "engine WEB not built yet in this commit",
 }
+
+CLAIMED.update({
+ "C04": ("all-paths conservation rules on Aggregate (SSA path enumeration per loop iteration)",
+         "DESIGN.md §3.11 AG, §4 C04",
+         "Each clause of the partition statement is decided on every SSA path of one iteration of the find-or-create loop (lookup loop unrolled), of the collect loop and of the code after it: exactly one insertion of each goroutine id, re-keying on merge with a fresh merged key, ids sorted after the last append, First OR-accumulated and published unchanged, one Bucket per map entry, back reference to the receiver. Disjointness/exhaustiveness follow by induction over the goroutines.",
+         "Assumes that similar is an equivalence relation at the chosen level (decided by C05's EQ rules). Trusted: Go map semantics."),
+ "C05": ("decision trees of similar/equal/merge extracted from SSA and compared with the per-level reference key for every truth assignment of the compared fields",
+         "DESIGN.md §3.6 EQ, §4 C05",
+         "similar/equal only compare fields, so each is a finite decision tree; the extracted tree equals the reference key of the property statement for all assignments (exhaustive, per level), the liftings are pointwise, sleep is never read, the merged key keeps its class, the lookup uses the caller's level; the reference keys are checked to be equivalence relations that refine each other. Bucket = similarity class follows by induction over arrivals.",
+         "Oracle: the per-level keys written from the property statement. Independence of print order follows from uniqueness of the similar key (equivalence) — not separately enumerated."),
+ "C06": ("classification of every range over a map (AST + types), totality of the bucket comparator, no state surviving a call, no other nondeterminism source",
+         "DESIGN.md §3.5 MO, §3.7 LX-total, §4 C06",
+         "All map ranges in scope are enumerated and each is proved order-independent (any-match, collect-then-total-sort, or unique-match lookup re-using this run's EQ/AG verdicts); the bucket comparator ends in a unique key; the reader is a fresh local; no rand/clock/select/goroutine/pointer formatting in the library.",
+         "Trusted: sort package, text/template's sorted map iteration; file-system contents are part of the input. Not decided: nondeterminism inside the standard library."),
+ "C12": ("all-paths rules on the four merge functions (what each field of a merged value is made of)",
+         "DESIGN.md §3.6 EQ-merge-show/EQ-sig-scalars, §4 C12",
+         "Equal arguments are copied, differing ones become '*', aggregates are merged position by position, every other frame field is the left frame's, sleep bounds are min/max, Locked is the OR, state/creator are the left side's; a similar-but-unequal member always goes through merge; the published bucket signature is the merged key — decided on every SSA path.",
+         "Relies on C05 (members of a bucket are similar to its key), so fields equal by similarity may be taken from the left side."),
+ "C13": ("comparators recognised as lexicographic chains of mirrored strict comparisons (AST + types, bijective operand renaming); key-order rule",
+         "DESIGN.md §3.7 LX, §4 C13",
+         "Stack.less, Signature.less, the Aggregate comparator and uint64Slice.Less are lexicographic products of strict (weak) orders, hence strict weak orders for every set of buckets; the key order puts the crashing goroutine's bucket first, then more package-main frames, then per-location counts with GoMod/GOPATH/GoPkg before Stdlib; merged frames keep Location/IsPkgMain.",
+         "The recogniser accepts only the enumerated idioms; a comparator written differently is reported as undecidable rather than accepted."),
+})
+for k in list(CLAIMED): NA.pop(k, None)
 try:
     exec(open(os.path.join(V, "tools", "manifest_table.py")).read())
 except FileNotFoundError:
